@@ -68,8 +68,8 @@ Prefix == CASE PrefixName = "none"   -> <<>>
             [] PrefixName = "map"    -> <<"w", ":", "lf">>
             [] PrefixName = "amp"    -> <<"&">>
 
-VARIABLES inp, pc, rd, done, flow, toks, taken, indent, indents, ask, keys, out, res, err, mon
-vars == <<inp, pc, rd, done, flow, toks, taken, indent, indents, ask, keys, out, res, err, mon>>
+VARIABLES inp, pc, rd, done, flow, toks, taken, indent, indents, ask, keys, out, res, err, mon, path
+vars == <<inp, pc, rd, done, flow, toks, taken, indent, indents, ask, keys, out, res, err, mon, path>>
 
 (***************************************************************************)
 (* alphabet classes (the literal character sets of scanner.py)             *)
@@ -651,74 +651,133 @@ Which(r) ==
 
 (***************************************************************************)
 (* actions                                                                 *)
+(*                                                                         *)
+(* Fine = TRUE (design check): one step per method - Need (the loop head   *)
+(* of get_token), ScanToNextToken, StalePossibleSimpleKeys, UnwindIndent,  *)
+(* one action per fetch_*, Take (the consumer receives a token).           *)
+(* Fine = FALSE (enumeration for model-based testing): the same operators  *)
+(* composed into one step per input (RunAll), so that a state is a test    *)
+(* case: input, delivered tokens, outcome.                                 *)
+(* path records the fetchers taken (TLC's -coverage cannot instrument this *)
+(* module: it runs out of memory expanding the nested operators), so the   *)
+(* no-vacuity check counts actions from it.                                *)
 (***************************************************************************)
-Apply(r, nextpc) ==
+Tick(r) == [r EXCEPT !.rd.wk = @ + 1]
+Apply(r, nextpc, name) ==
   /\ rd' = [r.rd EXCEPT !.wk = @ + 1] /\ done' = r.done /\ flow' = r.flow /\ toks' = r.toks /\ taken' = r.taken
   /\ indent' = r.indent /\ indents' = r.indents /\ ask' = r.ask /\ keys' = r.keys /\ res' = r.res /\ err' = r.err
   /\ pc' = IF r.res = "run" THEN nextpc ELSE "end"
+  /\ path' = IF name = "" THEN path ELSE Append(path, name)
   /\ UNCHANGED <<inp, out, mon>>
 
 \* the environment writes the input, one symbol at a time, then hands it to the reader
 Extend == /\ pc = "grow" /\ Len(inp) < Len(Prefix) + MaxLen
           /\ \E s \in Alphabet : inp' = Append(inp, s)
-          /\ UNCHANGED <<pc, rd, done, flow, toks, taken, indent, indents, ask, keys, out, res, err, mon>>
+          /\ UNCHANGED <<pc, rd, done, flow, toks, taken, indent, indents, ask, keys, out, res, err, mon, path>>
 \* Reader.__init__ / check_printable: the whole (small) input is checked before the first token is asked for
+NonPrintables == {j \in 1 .. Len(inp) : inp[j] = "np"}
+ReaderError == LET j == CHOOSE x \in NonPrintables : \A y \in NonPrintables : x <= y
+               IN  [kind |-> "reader", c |-> NoMark, p |-> [i |-> Width(j - 1), l |-> -1, c |-> -1]]
 ReaderCheck ==
-  /\ pc = "grow"
-  /\ LET np == {j \in 1 .. Len(inp) : inp[j] = "np"} IN
-     IF np = {} THEN pc' = "need" /\ UNCHANGED <<res, err>>
-     ELSE LET j == CHOOSE x \in np : \A y \in np : x <= y
-          IN  pc' = "end" /\ res' = "reader_error" /\ err' = [kind |-> "reader", c |-> NoMark, p |-> [i |-> Width(j - 1), l |-> -1, c |-> -1]]
-  /\ UNCHANGED <<inp, rd, done, flow, toks, taken, indent, indents, ask, keys, out, mon>>
+  /\ pc = "grow" /\ Fine
+  /\ IF NonPrintables = {} THEN pc' = "need" /\ UNCHANGED <<res, err>>
+     ELSE pc' = "end" /\ res' = "reader_error" /\ err' = ReaderError
+  /\ UNCHANGED <<inp, rd, done, flow, toks, taken, indent, indents, ask, keys, out, mon, path>>
 
 \* get_token / check_token: while self.need_more_tokens(): self.fetch_more_tokens()
 Need == /\ pc = "need"
-        /\ LET x == NeedMoreTokens(R) IN Apply(x.r, IF x.need THEN (IF Fine THEN "scan" ELSE "prep") ELSE "take")
+        /\ LET x == NeedMoreTokens(R) IN Apply(x.r, IF x.need THEN "scan" ELSE "take", "")
 \* the consumer takes one token (yaml.scan: while check_token(): yield get_token())
 Take == /\ pc = "take"
         /\ IF toks = <<>> THEN /\ res' = "ok" /\ pc' = "end" /\ UNCHANGED <<out, toks, taken, mon>>
            ELSE /\ out' = Append(out, Head(toks)) /\ toks' = Tail(toks) /\ taken' = taken + 1
                 /\ mon' = TG!TGStep(mon, Head(toks).k) /\ pc' = "need" /\ UNCHANGED res
         /\ rd' = [rd EXCEPT !.wk = @ + 1]
-        /\ UNCHANGED <<inp, done, flow, indent, indents, ask, keys, err>>
+        /\ UNCHANGED <<inp, done, flow, indent, indents, ask, keys, err, path>>
 
-AScanToNextToken == pc = "scan" /\ Apply(ScanToNextToken(R), "stale")
-AStalePossibleSimpleKeys == pc = "stale" /\ Apply(StalePossibleSimpleKeys(R), "unwind")
-AUnwindIndent == pc = "unwind" /\ Apply(UnwindIndent(R, rd.c), "fetch")
+AScanToNextToken == pc = "scan" /\ Apply(ScanToNextToken(R), "stale", "")
+AStalePossibleSimpleKeys == pc = "stale" /\ Apply(StalePossibleSimpleKeys(R), "unwind", "")
+AUnwindIndent == pc = "unwind" /\ Apply(UnwindIndent(R, rd.c), "fetch", "")
+
+FetchBy(name, r) ==
+  CASE name = "StreamEnd" -> FetchStreamEnd(r)
+    [] name = "Directive" -> FetchDirective(r)
+    [] name = "DocumentStart" -> FetchDocumentIndicator(r, "DocumentStart")
+    [] name = "DocumentEnd" -> FetchDocumentIndicator(r, "DocumentEnd")
+    [] name = "FlowSequenceStart" -> FetchFlowCollectionStart(r, "FlowSequenceStart")
+    [] name = "FlowMappingStart" -> FetchFlowCollectionStart(r, "FlowMappingStart")
+    [] name = "FlowSequenceEnd" -> FetchFlowCollectionEnd(r, "FlowSequenceEnd")
+    [] name = "FlowMappingEnd" -> FetchFlowCollectionEnd(r, "FlowMappingEnd")
+    [] name = "FlowEntry" -> FetchFlowEntry(r)
+    [] name = "BlockEntry" -> FetchBlockEntry(r)
+    [] name = "Key" -> FetchKey(r)
+    [] name = "Value" -> FetchValue(r)
+    [] name = "Alias" -> FetchAnchorLike(r, "Alias")
+    [] name = "Anchor" -> FetchAnchorLike(r, "Anchor")
+    [] name = "Tag" -> FetchTag(r)
+    [] name = "Literal" -> FetchBlockScalar(r, "|")
+    [] name = "Folded" -> FetchBlockScalar(r, ">")
+    [] name = "Single" -> FetchFlowScalar(r, FALSE)
+    [] name = "Double" -> FetchFlowScalar(r, TRUE)
+    [] name = "Plain" -> FetchPlain(r)
+    [] name = "NoToken" -> Fail(r, "no_token", NoMark, Here(r))
+Sel(name) == pc = "fetch" /\ Which(R) = name /\ Apply(FetchBy(name, R), "need", name)
+AFetchStreamEnd         == Sel("StreamEnd")
+AFetchDirective         == Sel("Directive")
+AFetchDocumentStart     == Sel("DocumentStart")
+AFetchDocumentEnd       == Sel("DocumentEnd")
+AFetchFlowSequenceStart == Sel("FlowSequenceStart")
+AFetchFlowMappingStart  == Sel("FlowMappingStart")
+AFetchFlowSequenceEnd   == Sel("FlowSequenceEnd")
+AFetchFlowMappingEnd    == Sel("FlowMappingEnd")
+AFetchFlowEntry         == Sel("FlowEntry")
+AFetchBlockEntry        == Sel("BlockEntry")
+AFetchKey               == Sel("Key")
+AFetchValue             == Sel("Value")
+AFetchAlias             == Sel("Alias")
+AFetchAnchor            == Sel("Anchor")
+AFetchTag               == Sel("Tag")
+AFetchLiteral           == Sel("Literal")
+AFetchFolded            == Sel("Folded")
+AFetchSingle            == Sel("Single")
+AFetchDouble            == Sel("Double")
+AFetchPlain             == Sel("Plain")
+ANoToken                == Sel("NoToken")
+
+\* Fine = FALSE: the whole scan of one input as one step
 Prepared(r) == LET r1 == StalePossibleSimpleKeys(ScanToNextToken(r)) IN
                IF r1.res # "run" THEN r1 ELSE UnwindIndent(r1, r1.rd.c)
-APrepare == pc = "prep" /\ Apply(Prepared(R), "fetch")
-
-Sel(name) == pc = "fetch" /\ Which(R) = name
-AFetchStreamEnd         == Sel("StreamEnd") /\ Apply(FetchStreamEnd(R), "need")
-AFetchDirective         == Sel("Directive") /\ Apply(FetchDirective(R), "need")
-AFetchDocumentStart     == Sel("DocumentStart") /\ Apply(FetchDocumentIndicator(R, "DocumentStart"), "need")
-AFetchDocumentEnd       == Sel("DocumentEnd") /\ Apply(FetchDocumentIndicator(R, "DocumentEnd"), "need")
-AFetchFlowSequenceStart == Sel("FlowSequenceStart") /\ Apply(FetchFlowCollectionStart(R, "FlowSequenceStart"), "need")
-AFetchFlowMappingStart  == Sel("FlowMappingStart") /\ Apply(FetchFlowCollectionStart(R, "FlowMappingStart"), "need")
-AFetchFlowSequenceEnd   == Sel("FlowSequenceEnd") /\ Apply(FetchFlowCollectionEnd(R, "FlowSequenceEnd"), "need")
-AFetchFlowMappingEnd    == Sel("FlowMappingEnd") /\ Apply(FetchFlowCollectionEnd(R, "FlowMappingEnd"), "need")
-AFetchFlowEntry         == Sel("FlowEntry") /\ Apply(FetchFlowEntry(R), "need")
-AFetchBlockEntry        == Sel("BlockEntry") /\ Apply(FetchBlockEntry(R), "need")
-AFetchKey               == Sel("Key") /\ Apply(FetchKey(R), "need")
-AFetchValue             == Sel("Value") /\ Apply(FetchValue(R), "need")
-AFetchAlias             == Sel("Alias") /\ Apply(FetchAnchorLike(R, "Alias"), "need")
-AFetchAnchor            == Sel("Anchor") /\ Apply(FetchAnchorLike(R, "Anchor"), "need")
-AFetchTag               == Sel("Tag") /\ Apply(FetchTag(R), "need")
-AFetchLiteral           == Sel("Literal") /\ Apply(FetchBlockScalar(R, "|"), "need")
-AFetchFolded            == Sel("Folded") /\ Apply(FetchBlockScalar(R, ">"), "need")
-AFetchSingle            == Sel("Single") /\ Apply(FetchFlowScalar(R, FALSE), "need")
-AFetchDouble            == Sel("Double") /\ Apply(FetchFlowScalar(R, TRUE), "need")
-AFetchPlain             == Sel("Plain") /\ Apply(FetchPlain(R), "need")
-ANoToken                == Sel("NoToken") /\ Apply(Fail(R, "no_token", NoMark, Mk(rd)), "need")
+RECURSIVE RunAll(_, _, _, _)
+RunAll(r, o, m, pth) ==
+  LET x == NeedMoreTokens(r) IN
+  IF x.r.res # "run" THEN [r |-> x.r, out |-> o, mon |-> m, path |-> pth]
+  ELSE IF x.need THEN
+       LET P == Prepared(x.r) IN
+       IF P.res # "run" THEN [r |-> P, out |-> o, mon |-> m, path |-> pth]
+       ELSE LET f == FetchBy(Which(P), Tick(P)) IN
+            IF f.res # "run" THEN [r |-> f, out |-> o, mon |-> m, path |-> Append(pth, Which(P))]
+            ELSE RunAll(f, o, m, Append(pth, Which(P)))
+  ELSE IF x.r.toks = <<>> THEN [r |-> [x.r EXCEPT !.res = "ok"], out |-> o, mon |-> m, path |-> pth]
+  ELSE RunAll(Tick([x.r EXCEPT !.toks = Tail(@), !.taken = @ + 1]), Append(o, Head(x.r.toks)),
+              TG!TGStep(m, Head(x.r.toks).k), pth)
+Run ==
+  /\ pc = "grow" /\ ~Fine
+  /\ IF NonPrintables # {}
+     THEN /\ res' = "reader_error" /\ err' = ReaderError
+          /\ UNCHANGED <<rd, done, flow, toks, taken, indent, indents, ask, keys, out, mon, path>>
+     ELSE LET z == RunAll(R, <<>>, mon, <<>>) IN
+          /\ rd' = z.r.rd /\ done' = z.r.done /\ flow' = z.r.flow /\ toks' = z.r.toks /\ taken' = z.r.taken
+          /\ indent' = z.r.indent /\ indents' = z.r.indents /\ ask' = z.r.ask /\ keys' = z.r.keys
+          /\ res' = z.r.res /\ err' = z.r.err /\ out' = z.out /\ mon' = z.mon /\ path' = z.path
+  /\ pc' = "end" /\ UNCHANGED inp
 
 Init == /\ inp = Prefix /\ pc = "grow" /\ rd = [p |-> 0, i |-> 0, l |-> 0, c |-> 0, wk |-> 0]
         /\ done = FALSE /\ flow = 0 /\ taken = 0 /\ indent = -1 /\ indents = <<>> /\ ask = TRUE /\ keys = <<>>
         /\ toks = <<Tok("StreamStart", [i |-> 0, l |-> 0, c |-> 0], [i |-> 0, l |-> 0, c |-> 0], <<>>, <<>>, "")>>
-        /\ out = <<>> /\ res = "run" /\ err = NoErr /\ mon = TG!TGInit
+        /\ out = <<>> /\ res = "run" /\ err = NoErr /\ mon = TG!TGInit /\ path = <<>>
 
-Next == \/ Extend \/ ReaderCheck \/ Need \/ Take
-        \/ AScanToNextToken \/ AStalePossibleSimpleKeys \/ AUnwindIndent \/ APrepare
+Next == \/ Extend \/ ReaderCheck \/ Need \/ Take \/ Run
+        \/ AScanToNextToken \/ AStalePossibleSimpleKeys \/ AUnwindIndent
         \/ AFetchStreamEnd \/ AFetchDirective \/ AFetchDocumentStart \/ AFetchDocumentEnd
         \/ AFetchFlowSequenceStart \/ AFetchFlowMappingStart \/ AFetchFlowSequenceEnd \/ AFetchFlowMappingEnd
         \/ AFetchFlowEntry \/ AFetchBlockEntry \/ AFetchKey \/ AFetchValue \/ AFetchAlias \/ AFetchAnchor \/ AFetchTag
@@ -745,13 +804,13 @@ H_YamlErrorOnly == res # "crash"
 \* the scan terminates: work is bounded linearly in the length of the input (no hang in the model)
 H_Terminates == rd.wk <= 12 * (Len(inp) + 2)
 \* marks of tokens and of errors lie inside the input and tell the truth about line and column
-H_TokenMarks == \A j \in DOMAIN toks : PosOk(toks[j].s) /\ PosOk(toks[j].e) /\ toks[j].s.i <= toks[j].e.i
+H_TokenMarks == pc = "end" => \A j \in DOMAIN out : PosOk(out[j].s) /\ PosOk(out[j].e) /\ out[j].s.i <= out[j].e.i
 H_ErrorMarks == /\ res = "error" => (PosOk(err.p) /\ (err.c # NoMark => PosOk(err.c)))
                 /\ res = "reader_error" => (0 <= err.p.i /\ err.p.i <= TotalWidth)
 \* the delivered token stream is a word (a prefix of one, while running or failed) of the scan-level grammar
 H_TokenGrammar == ~TG!TGRejected(mon) /\ (res = "ok" => TG!TGComplete(mon))
 \* start marks of delivered tokens never move backwards
-H_Monotone == \A j \in 1 .. Len(out) - 1 : out[j].s.i <= out[j + 1].s.i
+H_Monotone == pc = "end" => \A j \in 1 .. Len(out) - 1 : out[j].s.i <= out[j + 1].s.i
 \* L-level: the retroactive KEY is inserted at a position that exists in the queue; flow keys are never required
 L_Sane == /\ \A lv \in DOMAIN keys : keys[lv].tn >= taken /\ keys[lv].tn <= taken + Len(toks)
           /\ \A lv \in DOMAIN keys : keys[lv].req => lv = 0
